@@ -271,8 +271,16 @@ func init() {
 			if r.t == nil {
 				return Ptr{}
 			}
+			if _, isMap := r.t.Underlying().(*types.Map); isMap && r.addr == nil {
+				// the data word of a non-addressable map Value is the map itself, not the
+				// address of a map variable: using it as *map is an invalid conversion
+				e.goPanic("invalid reinterpretation: data word of a non-addressable %v value used as pointer to it", r.t)
+			}
 			switch r.t.Underlying().(type) {
 			case *types.Pointer, *types.Map, *types.Signature, *types.Chan:
+				if r.addr != nil {
+					return Ptr{c: r.addr}
+				}
 				v := e.rvGet(r)
 				if p, ok := v.(Ptr); ok {
 					return p
